@@ -1,6 +1,6 @@
 // Correspondence harness for the Verilated RTL (C03, C16).
 // Built by runner/rtl_common.py with
-//   verilator --cc --exe --build --public-flat-rw --top-module hex --prefix Vhex \
+//   verilator --cc --exe --build --public-flat-rw -fno-inline --top-module hex --prefix Vhex \
 //             hex_pkg.sv hex.sv processor.{sv|v} memory.sv h_rtl.cpp
 // from $HEX_REPO, once per design (processor.sv, verilog/processor.v, synth/processor.v).
 //
@@ -32,14 +32,13 @@
 
 #include <verilated.h>
 #include "Vhex.h"
-#include "Vhex_hex.h"
-#include "Vhex_processor.h"
-#include "Vhex_memory.h"
+#include "Vhex__Syms.h"   // scopes by name; -fno-inline keeps one class per module for .sv and .v alike
 
 double sc_time_stamp() { return 0; }
 
-#define PROC(x) top->hex->u_processor->x
-#define MEMQ top->hex->u_memory->memory_q
+#define PROC(x) top->hex->vlSymsp->TOP__hex__u_processor.x
+#define MEMQ top->hex->vlSymsp->TOP__hex__u_memory.memory_q
+#define HEXM(x) top->hex->vlSymsp->TOP__hex.x
 
 static const uint32_t DEPTH = 1u << 19;
 
@@ -102,8 +101,8 @@ int main(int argc, char **argv) {
       top->eval();
       unsigned sv = top->o_syscall_valid, sc = top->o_syscall;
       unsigned fb = PROC(instr);
-      unsigned dv = top->hex->req_d_valid, we = top->hex->req_d_we;
-      unsigned da = top->hex->req_d_addr, dd = top->hex->req_d_data;
+      unsigned dv = HEXM(req_d_valid), we = HEXM(req_d_we);
+      unsigned da = HEXM(req_d_addr), dd = HEXM(req_d_data);
       top->i_clk = 1; top->eval();
       std::string out; char buf[200];
       snprintf(buf, sizeof buf, "%x %x %x %x %x %x %x %x %x %x %x ", (unsigned)PROC(pc_q), (unsigned)PROC(areg_q),
